@@ -91,6 +91,36 @@ CLAIMED = {
         note="Lean kernel + standard axioms; float rounding of the code not modelled (inputs are dyadic); tie sampled.",
         technique="Lean 4 proof (fold invariants, rational inequalities) + differential correspondence",
         design="DESIGN.md §4 C13"),
+    "C09": dict(
+        text="Machine-checked proof (Lean 4) that the online interpreter as the code organises it - one operator object per node "
+             "name, all assertions evaluated at every update, every name stepped once per update (memo), later assertions sharing "
+             "the nodes of earlier ones - returns for every assertion what a stand-alone monitor of the inlined formula returns "
+             "(= rho), whatever the sharing. Correspondence: modular (multi-assertion text / add_sub_spec / declared constants) vs "
+             "inlined specification on the real offline, online and pastified monitors, and online run vs the mirror runProgram.",
+        note="Lean kernel + standard axioms; the parser's substitution of references and constants, and name-injectivity of the "
+             "printer, are validated by correspondence; dense monitors by correspondence only; tie sampled.",
+        technique="Lean 4 proof (simulation between the name-keyed dictionary with memo and the family of stand-alone trees) + differential correspondence",
+        design="DESIGN.md §4 C09"),
+    "C12": dict(
+        text="Machine-checked proof (Lean 4) that the results table read by get_value holds, online, for every assertion and every "
+             "operator sub-formula the value of its stand-alone monitor (= rho) at every update, and offline the whole robustness "
+             "signal of the node (one value per sample); input variables return the supplied data. Correspondence: get_value of "
+             "every name and input variable on the real offline/online/pastified monitors vs stand-alone real monitors and the mirror.",
+        note="Lean kernel + standard axioms; name resolution through phi_name_to_node_dict validated by correspondence; dense "
+             "monitors by correspondence only; tie sampled.",
+        technique="Lean 4 proof (corollaries of the C09 simulation and of C01) + differential correspondence",
+        design="DESIGN.md §4 C12"),
+    "C17": dict(
+        text="Machine-checked proof (Lean 4) that the mirrors - written with an error monad for every partial Python primitive - "
+             "return normally on every well-formed input (any n>=1, surplus variables, any order) for the visitor tables of the "
+             "current tree, that the online construction rejects every specification containing a future operator with "
+             "RTAMTException, and that pastify rejects exactly the unbounded-future specifications. Correspondence: outcome class "
+             "(ok / RTAMTException / other exception type) of the real monitors vs the model on degenerate data shapes and on "
+             "unsupported constructs.",
+        note="Lean kernel + standard axioms; totality is about the mirrors, tied to the code by the regenerated tables and the "
+             "sampled correspondence; dense-time rejection by table + correspondence only.",
+        technique="Lean 4 proof (totality corollaries of C01/C02 + structural induction for rejection) + source-derived tables + outcome-class correspondence",
+        design="DESIGN.md §4 C17"),
 }
 
 NOT_YET = {}
